@@ -6,6 +6,7 @@
 -/
 import KiraModel.Proofs.ClockSysLemmas
 import KiraModel.Proofs.ClockSharedLemmas
+import KiraModel.Proofs.ClockTweenLemmas
 
 namespace K
 open Clock Conc
@@ -519,5 +520,162 @@ example : ∃ s : Sys ℝ, s.waiters[0]? = some ⟨.clockTime 0 ⟨2, 0⟩, fals
   simp only [List.mem_singleton] at hp
   subst hp
   simp [OwnWaiting, c, Parameter.set, Parameter.new, Clock.new, ClockCmds.empty]
+
+/-! ### a clock whose speed is being tweened (extension: the speed is integrated, not only characterised)
+
+`Clock::update` advances the speed parameter FIRST and then the time with the NEW value
+(`self.speed.update(dt, info); … *tick_timer += self.speed.value().as_ticks_per_second() * dt`), so over chunks
+`dt₁ … dtₙ` a ticking clock advances by the right-end-point Riemann sum `Σᵢ v(Tᵢ)·dtᵢ`, `Tᵢ = t + dt₁ + … + dtᵢ`,
+of the closed form `v = Clock.speedAt` (C06's `start + (target − start)·ease(T/D)` read through
+`ClockSpeed::interpolate`, i.e. in the unit of the target; the target itself from `D` on).
+`Clock.riemann s tgt D e t (dt :: rest) = speedAt s tgt D e (t + dt) * dt + riemann s tgt D e (t + dt) rest`. -/
+
+/-- **exact Riemann-sum form**: a ticking clock whose speed parameter is `t` seconds into a tween of `D` ns from
+    `s` to the fixed speed `tgt` (or has landed: `TweenAt`), updated with any chunk durations `dts ≥ 0` — the
+    tween may end anywhere inside the run — shows exactly `t₀ + Σᵢ speedAt(Tᵢ)·dtᵢ`; the speed parameter is then
+    `t + Σdt` into the tween.  Speeds are assumed non-negative from `t` on (as in `C05_clock_accumulates`).
+    (Over ℝ `1/0 = 0`: for a `SecondsPerTick` reading that passes through 0 the floats differ, cf. `ClockSpeed.Valid`.) -/
+theorem C05_tweened_riemann_sum (c : Clock ℝ) (info : Info ℝ) (s tgt : ClockSpeed ℝ) (t : ℝ) (st : StartTime ℝ)
+    (D : ℕ) (hD : 0 < D) (e : Easing ℝ) (dts : List ℝ)
+    (htick : c.ticking = true) (hwf : Clock.WF c) (hspeed : Parameter.TweenAt c.speed s tgt t st D e)
+    (hnn : ∀ dt ∈ dts, 0 ≤ dt) (hv : ∀ T, t ≤ T → 0 ≤ speedAt s tgt D e T) :
+    (c.run info dts).state.time
+        = ⟨⌊val c + riemann s tgt D e t dts⌋₊, Int.fract (val c + riemann s tgt D e t dts)⟩
+      ∧ ((c.run info dts).state.time.ticks : ℝ) + (c.run info dts).state.time.fraction
+          = val c + riemann s tgt D e t dts
+      ∧ 0 ≤ (c.run info dts).state.time.fraction ∧ (c.run info dts).state.time.fraction < 1
+      ∧ Parameter.TweenAt (c.run info dts).speed s tgt (t + dts.sum) st D e := by
+  obtain ⟨hval, hwf', _, hs'⟩ := run_tween info s tgt st D hD e dts c t htick hwf hspeed hnn hv
+  refine ⟨?_, hval, hwf'.1, hwf'.2, hs'⟩
+  have := time_eq_of_val (c.run info dts).state.time hwf'
+  unfold val at hval
+  rw [hval] at this
+  exact this
+
+/-- **the speed in that sum, explicitly**, for a target in ticks per second: `a + (b − a)·ease(T/D)` with `a` the
+    starting speed in ticks per second, `b` from `D` on; and each term of the sum uses the value at the END of
+    its chunk (the parameter is updated before the time is advanced). -/
+theorem C05_tweened_speed_closed_form (s : ClockSpeed ℝ) (b : ℝ) (D : ℕ) (e : Easing ℝ) (t dt : ℝ) (rest : List ℝ) :
+    (∀ T, speedAt s (.ticksPerSecond b) D e T =
+      if (durToSecs D : ℝ) ≤ T then b
+      else s.asTicksPerSecond + (b - s.asTicksPerSecond) * e.apply (T / durToSecs D))
+    ∧ riemann s (.ticksPerSecond b) D e t (dt :: rest)
+        = speedAt s (.ticksPerSecond b) D e (t + dt) * dt + riemann s (.ticksPerSecond b) D e (t + dt) rest :=
+  ⟨fun T => speedAt_tps s b D e T, rfl⟩
+
+/-- **bounds**: a tween from `a` to `b` ticks per second (both ≥ 0) with an easing that stays in [0, 1] on
+    [0, 1] (every built-in easing with a positive power: `Easing.range`): over chunks of total duration `Σdt`
+    the clock advances by at least `min a b · Σdt` and at most `max a b · Σdt` (so its time never decreases). -/
+theorem C05_tweened_bounds (c : Clock ℝ) (info : Info ℝ) (s : ClockSpeed ℝ) (b t : ℝ) (st : StartTime ℝ)
+    (D : ℕ) (hD : 0 < D) (e : Easing ℝ) (dts : List ℝ)
+    (htick : c.ticking = true) (hwf : Clock.WF c)
+    (hspeed : Parameter.TweenAt c.speed s (.ticksPerSecond b) t st D e) (_hvalid : s.Valid)
+    (ht : 0 ≤ t) (ha : 0 ≤ s.asTicksPerSecond) (hb : 0 ≤ b)
+    (he : ∀ x, 0 ≤ x → x ≤ 1 → 0 ≤ e.apply x ∧ e.apply x ≤ 1)
+    (hnn : ∀ dt ∈ dts, 0 ≤ dt) :
+    val c + min s.asTicksPerSecond b * dts.sum ≤ val (c.run info dts)
+      ∧ val (c.run info dts) ≤ val c + max s.asTicksPerSecond b * dts.sum
+      ∧ val c ≤ val (c.run info dts) := by
+  have hr : ∀ T, t ≤ T → min s.asTicksPerSecond b ≤ speedAt s (.ticksPerSecond b) D e T
+      ∧ speedAt s (.ticksPerSecond b) D e T ≤ max s.asTicksPerSecond b :=
+    fun T hT => speedAt_tps_range s b D hD e he T (le_trans ht hT)
+  have hmin : 0 ≤ min s.asTicksPerSecond b := le_min ha hb
+  obtain ⟨hval, _, _, _⟩ := run_tween info s (.ticksPerSecond b) st D hD e dts c t htick hwf hspeed hnn
+    (fun T hT => le_trans hmin (hr T hT).1)
+  obtain ⟨b1, b2⟩ := riemann_bounds s (.ticksPerSecond b) D e _ _ dts t hnn hr
+  have hsum : 0 ≤ dts.sum := List.sum_nonneg hnn
+  have := mul_nonneg hmin hsum
+  rw [hval]
+  refine ⟨by linarith, by linarith, by linarith⟩
+
+/-- **after the tween the clock runs at exactly the target speed**: once the chunks `dts` have used up the
+    tween's duration (`D ≤ t + Σdts`), the speed parameter is at rest on the target (`SteadySpeed`: the
+    hypothesis of `C05_clock_accumulates` / `C05_partition_independent`), and any further chunks `more` advance
+    the clock by exactly `target · Σmore`. -/
+theorem C05_tweened_then_steady (c : Clock ℝ) (info : Info ℝ) (s tgt : ClockSpeed ℝ) (t : ℝ) (st : StartTime ℝ)
+    (D : ℕ) (hD : 0 < D) (e : Easing ℝ) (dts more : List ℝ)
+    (htick : c.ticking = true) (hwf : Clock.WF c) (hspeed : Parameter.TweenAt c.speed s tgt t st D e)
+    (hnn : ∀ dt ∈ dts, 0 ≤ dt) (hv : ∀ T, t ≤ T → 0 ≤ speedAt s tgt D e T)
+    (hdone : (durToSecs D : ℝ) ≤ t + dts.sum) (hnn' : ∀ dt ∈ more, 0 ≤ dt) :
+    SteadySpeed (c.run info dts) tgt.asTicksPerSecond
+      ∧ (c.run info dts).speed.raw = tgt
+      ∧ val (c.run info (dts ++ more)) = val (c.run info dts) + tgt.asTicksPerSecond * more.sum := by
+  obtain ⟨_, hwf', ht', hs'⟩ := run_tween info s tgt st D hD e dts c t htick hwf hspeed hnn hv
+  have hl : Parameter.LandedCs (c.run info dts).speed tgt := by
+    rcases hs' with ⟨hlt, _⟩ | ⟨_, hl⟩
+    · exact absurd hdone (not_le.mpr hlt)
+    · exact hl
+  have hst := landed_steady _ tgt hl
+  have hv' : 0 ≤ tgt.asTicksPerSecond := by
+    have := hv (t + dts.sum) (by have := List.sum_nonneg hnn; linarith)
+    unfold speedAt at this
+    rwa [if_pos hdone] at this
+  refine ⟨hst, hl.2.2, ?_⟩
+  rw [Clock.run_append]
+  exact (run_steady info _ hv' more _ ht' hwf' hst hnn').1
+
+/-- **monotonicity, any speed history**: whatever happens to the speed parameter (tweens, retargets, modulator
+    links — nothing is assumed about its state) and whether the clock is ticking or not, as long as every speed
+    an update uses is non-negative (`NonnegSpeeds`) the clock's time never decreases: the time after any prefix
+    `xs` of the chunks is at most the time after `xs ++ ys`. -/
+theorem C05_tweened_monotone (c : Clock ℝ) (info : Info ℝ) (xs ys : List ℝ) (hwf : Clock.WF c)
+    (hnn : ∀ dt ∈ xs ++ ys, 0 ≤ dt) (hs : NonnegSpeeds info c (xs ++ ys)) :
+    val (c.run info xs) ≤ val (c.run info (xs ++ ys)) ∧ val c ≤ val (c.run info xs) := by
+  obtain ⟨h1, h2⟩ := nonnegSpeeds_append info xs ys c hs
+  obtain ⟨a, hwf1⟩ := run_mono info xs c hwf (fun x hx => hnn x (by simp [hx])) h1
+  rw [Clock.run_append]
+  exact ⟨(run_mono info ys _ hwf1 (fun x hx => hnn x (by simp [hx])) h2).1, a⟩
+
+/-! ### non-vacuity of the tweened-speed theorems -/
+
+/-- a ticking clock at the very beginning of a 2 s linear speed tween from 1 to 3 ticks per second: the
+    hypotheses of `C05_tweened_riemann_sum`, `C05_tweened_bounds`, `C05_tweened_then_steady` hold together -/
+example : ∃ (c : Clock ℝ) (s : ClockSpeed ℝ) (b : ℝ) (st : StartTime ℝ) (D : ℕ) (e : Easing ℝ),
+    c.ticking = true ∧ Clock.WF c ∧ 0 < D ∧ Parameter.TweenAt c.speed s (.ticksPerSecond b) 0 st D e
+      ∧ s.Valid ∧ 0 ≤ s.asTicksPerSecond ∧ 0 ≤ b
+      ∧ (∀ x, 0 ≤ x → x ≤ 1 → 0 ≤ e.apply x ∧ e.apply x ≤ 1)
+      ∧ (∀ T, (0 : ℝ) ≤ T → 0 ≤ speedAt s (.ticksPerSecond b) D e T)
+      ∧ (∀ dt ∈ [(1 : ℝ), 1.5], 0 ≤ dt) ∧ (durToSecs D : ℝ) ≤ 0 + [(1 : ℝ), 1.5].sum := by
+  have hpos : (0 : ℝ) < durToSecs 2000000000 := durToSecs_pos _ (by norm_num)
+  have he : ∀ x : ℝ, 0 ≤ x → x ≤ 1 → 0 ≤ (Easing.linear : Easing ℝ).apply x ∧ (Easing.linear : Easing ℝ).apply x ≤ 1 :=
+    fun x h0 h1 => Easing.range .linear trivial x h0 h1
+  have ha : (0 : ℝ) ≤ (ClockSpeed.ticksPerSecond (1 : ℝ)).asTicksPerSecond := by
+    simp [ClockSpeed.asTicksPerSecond]
+  refine ⟨{ (Clock.new (.fixed (.ticksPerSecond 1))) with
+      ticking := true
+      speed := (Parameter.new (.fixed (.ticksPerSecond 1)) (.ticksPerMinute 120)).set
+        (.fixed (.ticksPerSecond 3)) ⟨.immediate, 2000000000, .linear⟩ },
+    .ticksPerSecond 1, 3, .immediate, 2000000000, .linear, rfl, ?_, by norm_num, ?_, trivial, ha, by norm_num,
+    he, ?_, ?_, ?_⟩
+  · simp [Clock.WF, Clock.new, ClockState.time, ClockTime.WF]
+  · left
+    refine ⟨hpos, ?_, rfl, Or.inl rfl⟩
+    simp [Parameter.set, Parameter.new]
+  · intro T hT
+    have h3 : (0 : ℝ) ≤ 3 := by norm_num
+    exact le_trans (le_min ha h3) (speedAt_tps_range _ 3 _ (by norm_num) .linear he T hT).1
+  · intro dt hdt
+    simp only [List.mem_cons, List.mem_nil_iff, or_false] at hdt
+    rcases hdt with rfl | rfl <;> norm_num
+  · rw [durToSecs_real]; norm_num
+
+/-- a clock and two chunks for which `NonnegSpeeds` (the hypothesis of `C05_tweened_monotone`) holds -/
+example : ∃ (c : Clock ℝ) (info : Info ℝ), Clock.WF c ∧ NonnegSpeeds info c ([1] ++ [2]) := by
+  have hst : ∀ c : Clock ℝ, SteadySpeed c 2 → ∀ dt info, 0 ≤ (c.speed.update twCs dt info).1.raw.asTicksPerSecond
+      ∧ SteadySpeed (c.update dt info).1 2 := by
+    intro c h dt info
+    have hu := steady_update c 2 dt info h
+    have hr : (c.speed.update twCs dt info).1.raw.asTicksPerSecond = 2 := by rw [hu.2]; exact h.2
+    refine ⟨by rw [hr]; norm_num, ?_⟩
+    unfold SteadySpeed
+    rw [(update_frame c dt info).1]
+    exact ⟨hu.1, hr⟩
+  refine ⟨{ (Clock.new (.fixed (.ticksPerSecond 2))) with ticking := true }, Info.empty, ?_, ?_⟩
+  · simp [Clock.WF, Clock.new, ClockState.time, ClockTime.WF]
+  · have h0 : SteadySpeed ({ (Clock.new (.fixed (.ticksPerSecond 2))) with ticking := true } : Clock ℝ) 2 := by
+      simp [SteadySpeed, Clock.new, Parameter.new, Value.isFixed, ClockSpeed.asTicksPerSecond]
+    obtain ⟨a1, s1⟩ := hst _ h0 1 Info.empty
+    obtain ⟨a2, _⟩ := hst _ s1 2 Info.empty
+    exact ⟨a1, a2, trivial⟩
 
 end K
